@@ -96,7 +96,7 @@ def codec_choice(tier):
 def valid_cases(draw, tier, rich=False):
     codec = draw(codec_choice(tier))
     hexbm = draw(st.booleans())
-    gen = draw(st.booleans())
+    gen = draw(st.sampled_from([True, False, False] if rich else [True, False]))
     config = draw(gen_iso.configs(max_bits=10, kinds=gen_iso.KINDS + ['pds', 'icc', 'fixed_decimal'])) if gen else PACKAGED
     msg = draw(gen_iso.messages(config, codec, exact=False, pds_mode='keys', min_elements=1 if rich else 0, rich=rich))
     data = refcodec.encode(config, codec, hexbm, msg)
@@ -334,8 +334,8 @@ def tasks(tier, seed):
     t = []
     for i in range(3 if not full else 8):
         t.append(('hyp_random', dict(n=300 if not full else 3000)))
-    for i in range(4 if not full else 16):
-        t.append(('subst_sweep', dict(nmsgs=2 if not full else 13)))
+    for i in range(6 if not full else 16):
+        t.append(('subst_sweep', dict(nmsgs=3 if not full else 13)))
     for i in range(5 if not full else 16):
         t.append(('hyp_mutations', dict(n=300 if not full else 4000)))
     for i in range(3 if not full else 8):
